@@ -8,6 +8,9 @@ Model of the `cow-bytes` crate: `CowBytes` (`cow-bytes/src/lib.rs`, `macros.rs`)
   and the returned value, or a panic together with the receiver as the unwind leaves it
   (`Panic.left`; observable by a caller that catches the unwind).
 * `while` loops are recursive functions (`splitScan`, `truncScan`, `advLoop`).
+* The provided `Buf` methods (`copy_to_bytes`, `copy_to_slice`, `get_u8/16/32`, `has_remaining`,
+  `chunks_vectored`) are the `bytes` crate's default bodies over `remaining` / `chunk` / `advance`
+  (`BufImpl`), instantiated for both types.
 * Lengths are `Nat`; `a - b` is truncated subtraction.  The Rust `usize` subtractions on the cached
   total (`pbuf.rs` pop/remove/split_off/advance) cannot underflow when the cache equals the contents
   (`Penguin.C20.Inv`, proved to hold of every reachable chain); for other values the model and the
@@ -300,7 +303,167 @@ def advance (c : Chain) (cnt : Nat) : Res Chain Unit :=
 
 end Chain
 
-/-- The mutating operations of `LongChain`. -/
+/-! ### The provided methods of `bytes::Buf`
+
+`LongChain` (pbuf.rs:228-261) and `CowBytes` (lib.rs:84-88) implement only the three required
+methods `remaining` / `chunk` / `advance`; every other `Buf` method a caller uses on them
+(`copy_to_bytes`, `copy_to_slice`, `get_u8`, `get_u16`, `get_u32`, `has_remaining`,
+`chunks_vectored`, …) is the default body of the `bytes` crate (bytes 1.12.1, `src/buf/buf_impl.rs`),
+which is generic in the implementor and reaches it only through the three required methods.  They are
+modelled the same way: once, over a record of the three required methods (`BufImpl`), following the
+default bodies statement by statement, and then instantiated for `Chain` and `Seg`.  (If one of the
+two types gets an override of a provided method, its instantiation below is what has to be replaced
+by a model of the override.)
+
+The two copying loops of the crate (`try_copy_to_slice`, `BytesMut::put`) do not terminate when
+`chunk()` is empty while `remaining() > 0` (a `Buf` that breaks its contract).  A total function
+cannot say that; the modelled loops stop with a panic there (`stuck`).  This cannot happen when the
+cached total equals the contents and no segment is empty (`Penguin.C20.Inv`, proved of every
+reachable chain); for other values the model and the code are not claimed to agree. -/
+
+/-- The required methods of `bytes::Buf` (buf_impl.rs:148, 181, 255) as an implementor supplies them. -/
+structure BufImpl (σ : Type) where
+  remaining : σ → Nat
+  chunk : σ → Bytes
+  advance : σ → Nat → Res σ Unit
+
+namespace BufImpl
+
+variable {σ : Type} (B : BufImpl σ)
+
+/-- `has_remaining`, buf_impl.rs:274-276: `self.remaining() > 0`. -/
+def hasRemaining (s : σ) : Bool := decide (B.remaining s > 0)
+
+/-- `chunks_vectored`, buf_impl.rs:212-223, for a `dst` of `k` slots: the slices written to `dst`
+    (the returned count is their number).  At most the first chunk is offered. -/
+def chunksVectored (s : σ) (k : Nat) : List Bytes :=
+  if k = 0 then []                                         -- `dst.is_empty()`
+  else if B.hasRemaining s then [B.chunk s]                -- `dst[0] = IoSlice::new(self.chunk()); 1`
+  else []
+
+set_option linter.unusedVariables false in
+/-- The `while !dst.is_empty()` loop of `try_copy_to_slice`, buf_impl.rs:1174-1182; `need` is
+    `dst.len()`, `acc` what has been written to the caller's slice so far. -/
+def copyLoop (s : σ) (need : Nat) (acc : Bytes) : Except (Panic σ) (σ × Bytes) :=
+  if h0 : need = 0 then .ok (s, acc)
+  else
+    let src := B.chunk s
+    let cnt := min src.length need                         -- `usize::min(src.len(), dst.len())`
+    if hc : cnt = 0 then .error ⟨s⟩                        -- stuck (see above)
+    else
+      match B.advance s cnt with                           -- `self.advance(cnt)`
+      | .error p => .error p
+      | .ok (s', _) => copyLoop s' (need - cnt) (acc ++ src.take cnt)
+termination_by need
+decreasing_by
+  have hdef : cnt = min (B.chunk s).length need := rfl
+  omega
+
+/-- `copy_to_slice`, buf_impl.rs:299-302, with a `dst` of `n` bytes: `try_copy_to_slice`
+    (buf_impl.rs:1166-1184) and `panic_advance` on its `Err`.  Returns what `dst` holds afterwards. -/
+def copyToSlice (s : σ) (n : Nat) : Res σ Bytes :=
+  if B.remaining s < n then .error ⟨s⟩                     -- `Err(TryGetError { .. })` → `panic_advance`
+  else B.copyLoop s n []
+
+set_option linter.unusedVariables false in
+/-- The loop of `BytesMut::put(src)` (bytes_mut.rs:1295-1320: `if !src.has_remaining() { return }`,
+    then `while src.has_remaining() { let s = src.chunk(); extend_from_slice(s); src.advance(s.len()) }`)
+    for `src = Take { inner: &mut self, limit }` (take.rs: `remaining = min(inner.remaining(), limit)`,
+    `chunk = &inner.chunk()[..min(len, limit)]`, `advance(cnt) = inner.advance(cnt); limit -= cnt`).
+    `acc` is the content of the `BytesMut`. -/
+def takeLoop (s : σ) (limit : Nat) (acc : Bytes) : Except (Panic σ) (σ × Bytes) :=
+  if h0 : min (B.remaining s) limit = 0 then .ok (s, acc)  -- `!src.has_remaining()`
+  else
+    let bytes := B.chunk s
+    let l := min bytes.length limit
+    if hl : l = 0 then .error ⟨s⟩                          -- stuck (see above)
+    else
+      match B.advance s l with
+      | .error p => .error p
+      | .ok (s', _) => takeLoop s' (limit - l) (acc ++ bytes.take l)
+termination_by limit
+decreasing_by
+  have hdef : l = min (B.chunk s).length limit := rfl
+  omega
+
+/-- `copy_to_bytes`, buf_impl.rs:2363-2376: `panic_advance` when `self.remaining() < len`, then
+    `BytesMut::with_capacity(len)`, `ret.put(self.take(len))`, `ret.freeze()`. -/
+def copyToBytes (s : σ) (n : Nat) : Res σ Bytes :=
+  if B.remaining s < n then .error ⟨s⟩
+  else B.takeLoop s n []
+
+/-- `get_u8`, buf_impl.rs:320-330. -/
+def getU8 (s : σ) : Res σ UInt8 :=
+  if B.remaining s < 1 then .error ⟨s⟩                     -- `panic_advance`
+  else
+    match (B.chunk s)[0]? with                             -- `self.chunk()[0]`
+    | none => .error ⟨s⟩                                   -- index out of bounds
+    | some b =>
+      match B.advance s 1 with
+      | .error p => .error p
+      | .ok (s', _) => .ok (s', b)
+
+/-- `buf_get_impl!(self, uN::from_be_bytes)`, buf_impl.rs:13-42 and 72-76, with `SIZE = size`: the
+    `SIZE` bytes that are handed to `from_be_bytes`.  Taken from the first chunk when it is long
+    enough (`chunk().get(..SIZE)`), through `copy_to_slice` into a temporary otherwise. -/
+def getFixed (s : σ) (size : Nat) : Res σ Bytes :=
+  if B.remaining s < size then .error ⟨s⟩                  -- `Err(TryGetError { .. })` → `panic_advance`
+  else if size ≤ (B.chunk s).length then
+    match B.advance s size with                            -- `$this.advance(SIZE)`
+    | .error p => .error p
+    | .ok (s', _) => .ok (s', (B.chunk s).take size)
+  else B.copyToSlice s size                                -- `$this.copy_to_slice(&mut buf)`
+
+end BufImpl
+
+/-- `uN::from_be_bytes` as a number: the first byte is the most significant one. -/
+def fromBe (bs : Bytes) : Nat := bs.foldl (fun a b => a * 256 + b.toNat) 0
+
+namespace BufImpl
+
+variable {σ : Type} (B : BufImpl σ)
+
+/-- `get_u16`, buf_impl.rs:376-378. -/
+def getU16 (s : σ) : Res σ UInt16 :=
+  (B.getFixed s 2).map fun (s', bs) => (s', UInt16.ofNat (fromBe bs))
+
+/-- `get_u32`, buf_impl.rs:502-504. -/
+def getU32 (s : σ) : Res σ UInt32 :=
+  (B.getFixed s 4).map fun (s', bs) => (s', UInt32.ofNat (fromBe bs))
+
+end BufImpl
+
+/-- `impl Buf for CowBytes`, lib.rs:84-88 (`impl_by_delegate!`: `advance`, `remaining`, `chunk` only). -/
+def Seg.buf : BufImpl Seg := ⟨Seg.remaining, Seg.chunk, Seg.advance⟩
+
+/-- `impl Buf for LongChain`, pbuf.rs:228-261 (`remaining`, `chunk`, `advance` only). -/
+def Chain.buf : BufImpl Chain := ⟨Chain.remaining, Chain.chunk, Chain.advance⟩
+
+namespace Seg
+
+def hasRemaining (s : Seg) : Bool := Seg.buf.hasRemaining s
+def chunksVectored (s : Seg) (k : Nat) : List Bytes := Seg.buf.chunksVectored s k
+def copyToBytes (s : Seg) (n : Nat) : Res Seg Bytes := Seg.buf.copyToBytes s n
+def copyToSlice (s : Seg) (n : Nat) : Res Seg Bytes := Seg.buf.copyToSlice s n
+def getU8 (s : Seg) : Res Seg UInt8 := Seg.buf.getU8 s
+def getU16 (s : Seg) : Res Seg UInt16 := Seg.buf.getU16 s
+def getU32 (s : Seg) : Res Seg UInt32 := Seg.buf.getU32 s
+
+end Seg
+
+namespace Chain
+
+def hasRemaining (c : Chain) : Bool := Chain.buf.hasRemaining c
+def chunksVectored (c : Chain) (k : Nat) : List Bytes := Chain.buf.chunksVectored c k
+def copyToBytes (c : Chain) (n : Nat) : Res Chain Bytes := Chain.buf.copyToBytes c n
+def copyToSlice (c : Chain) (n : Nat) : Res Chain Bytes := Chain.buf.copyToSlice c n
+def getU8 (c : Chain) : Res Chain UInt8 := Chain.buf.getU8 c
+def getU16 (c : Chain) : Res Chain UInt16 := Chain.buf.getU16 c
+def getU32 (c : Chain) : Res Chain UInt32 := Chain.buf.getU32 c
+
+end Chain
+
+/-- The mutating operations of `LongChain`: its own methods and the consuming `Buf` methods. -/
 inductive Op where
   | push (s : Seg)
   | insert (i : Nat) (s : Seg)
@@ -311,6 +474,11 @@ inductive Op where
   | truncate (n : Nat)
   | advance (n : Nat)
   | clear
+  | copyToBytes (n : Nat)
+  | copyToSlice (n : Nat)
+  | getU8
+  | getU16
+  | getU32
 deriving DecidableEq, Repr
 
 /-- What an operation returns. -/
@@ -319,6 +487,10 @@ inductive Out where
   | popped (s : Option Seg)
   | removed (s : Seg)
   | part (c : Chain)
+  | copied (b : Bytes)
+  | u8 (v : UInt8)
+  | u16 (v : UInt16)
+  | u32 (v : UInt32)
 deriving DecidableEq, Repr
 
 namespace Chain
@@ -333,6 +505,11 @@ def step (c : Chain) : Op → Res Chain Out
   | .truncate n => (c.truncate n).map fun (c', _) => (c', .unit)
   | .advance n => (c.advance n).map fun (c', _) => (c', .unit)
   | .clear => c.clear.map fun (c', _) => (c', .unit)
+  | .copyToBytes n => (c.copyToBytes n).map fun (c', b) => (c', .copied b)
+  | .copyToSlice n => (c.copyToSlice n).map fun (c', b) => (c', .copied b)
+  | .getU8 => c.getU8.map fun (c', v) => (c', .u8 v)
+  | .getU16 => c.getU16.map fun (c', v) => (c', .u16 v)
+  | .getU32 => c.getU32.map fun (c', v) => (c', .u32 v)
 
 /-- An operation sequence on one chain; it ends at the first panic (with the values returned so far). -/
 def run (c : Chain) : List Op → Except (Panic Chain × List Out) (Chain × List Out)
